@@ -293,7 +293,7 @@ class DocBuilder:
         if kind in ELEMENT_KINDS:
             self.elems[c].append((h, kind))
 
-    def mutate_in_place(self, roots, n=None):
+    def mutate_in_place(self, roots, n=None, extend_records=True):
         """a later chapter of the same history: records are added / extended in place, namespaces are registered, after the
         containers have already been exported, looked up, unified … (any answer remembered from before is now stale)"""
         g, w = self.g, self.w
@@ -302,7 +302,7 @@ class DocBuilder:
             c = g.choice([x for x in all_containers(w, roots) if x in self.recs])
             k = g.rng.random()
             recs = w.conts[c].records
-            if k < 0.4 and recs:
+            if k < 0.4 and recs and extend_records:
                 i = g.rng.randrange(len(recs))
                 h = w.rec_at(c, i)
                 attrs = self.other_attrs(c, n=1)
